@@ -274,3 +274,77 @@ Proof.
   induction sched as [|[b t] r IH]; intros sa sb; [reflexivity|].
   simpl fold_left. unfold xstep2 at 2. cbn [fst snd]. destruct b; rewrite IH; reflexivity.
 Qed.
+
+(* ---- token by token: which tokens become nodes ------------------------------------------------ *)
+(* CharData (text, entity-decoded text, one CDATA section - also an EMPTY one): exactly one new
+   TextNode child of the current node holding exactly the token's bytes; nothing else changes. *)
+Theorem xstep_chardata top below m st s :
+  xstep (mkXS (top :: below) m st) (XTChar s) =
+  (mkXS (xf_add top (T TextNode s (FXml [] []) []) :: below) m st, None).
+Proof. reflexivity. Qed.
+
+(* Consecutive CharData tokens stay separate nodes, in order (they are never merged or dropped). *)
+Theorem xfeed_chardata ss : forall top below m st,
+  xfeed (mkXS (top :: below) m st) (map XTChar ss) =
+  mkXS (mkXF (xf_ty top) (xf_data top) (xf_pfx top) (xf_uri top)
+             (rev (map (fun s => T TextNode s (FXml [] []) []) ss) ++ xf_kids top) :: below) m st.
+Proof.
+  induction ss as [|s r IH]; intros top below m st.
+  - destruct top; reflexivity.
+  - unfold xfeed in *. simpl fold_left. rewrite IH. unfold xf_add. cbn [xf_ty xf_data xf_pfx xf_uri xf_kids].
+    simpl rev. rewrite <- app_assoc. reflexivity.
+Qed.
+
+(* Comments, processing instructions and directives leave the reader untouched. *)
+Theorem xstep_other s : xstep s XTOther = (s, None).
+Proof. reflexivity. Qed.
+
+(* An EndElement never creates a node. *)
+Theorem xstep_end_no_new_node s sp l s' o :
+  xstep s (XTEnd sp l) = (s', o) -> length (xs_stack s') <= length (xs_stack s).
+Proof.
+  destruct s as [[|top [|p r]] m st]; simpl; intro H; inversion H; subst; simpl; lia.
+Qed.
+
+(* A StartElement that is accepted pushes ONE element node whose children are exactly one
+   AttributeNode per attribute, in token order, each with exactly one text child holding the
+   attribute value (also when the value is empty). *)
+Definition attr_node_of (a : bytes * bytes * bytes) (n : tree) : Prop :=
+  let '(_, loc, val) := a in
+  exists p u, n = T AttributeNode loc (FXml p u) [T TextNode val (FXml [] []) []].
+
+Lemma attr_nodes_shape m attrs : forall l,
+  attr_nodes m attrs = Some l -> Forall2 attr_node_of attrs l.
+Proof.
+  induction attrs as [|[[space loc] val] r IH]; intros l H.
+  - inversion H. constructor.
+  - simpl in H. destruct (xml_specific m AttributeNode space) as [[p u]|]; [|discriminate].
+    destruct (attr_nodes m r) as [l'|]; [|discriminate]. inversion H; subst.
+    constructor; [exists p, u; reflexivity|exact (IH l' eq_refl)].
+Qed.
+
+Theorem xstep_start_element top below m st sp loc attrs s' :
+  xstep (mkXS (top :: below) m st) (XTStart sp loc attrs) = (s', None) ->
+  exists p u l,
+    xs_stack s' = mkXF ElementNode loc p u (rev l) :: top :: below /\
+    node_space (FXml p u) = sp /\ Forall2 attr_node_of attrs l /\ lead_attrs l = attrs.
+Proof.
+  simpl. destruct (xml_specific (update_ns m attrs) ElementNode sp) as [[p u]|] eqn:Es; [|discriminate].
+  destruct (attr_nodes (update_ns m attrs) attrs) as [l|] eqn:Ea; [|discriminate].
+  intro H. inversion H; subst. exists p, u, l. cbn [xs_stack].
+  split; [reflexivity|]. split; [exact (xml_specific_space _ _ _ _ _ Es)|].
+  split; [exact (attr_nodes_shape _ _ _ Ea)|exact (proj1 (attr_nodes_view _ _ _ Ea))].
+Qed.
+
+(* ---- one reader per document ------------------------------------------------------------------ *)
+(* Every document is read by a reader created for it (NewXMLStreamReader / NewJSONStreamReader per
+   input): in the model a run over a sequence of documents is the map of the single-document run,
+   so what an earlier document did - including a failed Read - cannot influence a later one.
+   What this ASSUMES about the implementation: the only process-wide state the readers share is
+   the node pool, and a node obtained from it is indistinguishable from a new one (C12: pooled
+   nodes are reset and never aliased).  The good,bad,good sequences of the harness check exactly
+   that assumption on the implementation. *)
+Definition xbuild_all (docs : list (list xtok)) : list xres := map xbuild docs.
+Theorem xml_docs_independent docs i :
+  nth_error (xbuild_all docs) i = option_map xbuild (nth_error docs i).
+Proof. unfold xbuild_all. revert i. induction docs as [|d r IH]; intros [|i]; simpl; auto. Qed.
